@@ -64,6 +64,19 @@ def cases(draw, tier):
         R, C = r + g.integer(0, 3), c + g.integer(0, 3)
         g2 = gen.TreeGen(draw, avoid=AVOID | {"index_array"})
         tree = {"k": "slice", "ch": [g.op(R, C, max(depth - 1, 0))], "s0": g2.index_for(r, R), "s1": g2.index_for(c, C)}
+    if g.integer(1, 16) == 1:
+        # a long axis (64..127 positions) indexed by an index array of a narrow integer dtype, negative entries included
+        r = g.integer(64, 127)
+        c = g.integer(1, 3)
+        tree = {"k": "dense", "a": gen.enc(g.array((r, c)))} if g.boolean() else {"k": "T", "ch": [{"k": "dense", "a": gen.enc(g.array((c, r)))}]}
+        m = g.integer(1, 6)
+        pos = g.draw(st.lists(st.integers(0, r - 1), min_size=m, max_size=m, unique=True))
+        dt = g.pick(["i1", "i1", "i2", "i4"])
+        ix = [p - r if (g.boolean() and p - r >= -128) else p for p in pos]
+        if dt == "i1":
+            ix = [v for v in ix if -128 <= v <= 127] or [0]
+        idx = {"form": "s", "a": {"ix": ix, "dt": dt}}
+        return {"tree": tree, "idx": idx, "row": g.integer(0, 7), "X": g.operand(c, ranks=(1, 2))}
     form = g.pick(["i", "ij", "is", "sj", "s", "ss", "ss", "ll"])
     uniq = "dup_index" in AVOID
     idx = {"form": form}
